@@ -353,6 +353,84 @@ def esc(ctx, prog, lib):
                     ctx.violation("ESC-1", (clo.path, "class " + repr(c)), "inside a bracket class %r is rendered as %s, expected a backslash escape" % (c, sorted(vals)), clo.loc())
 
 
+def class_member_renderer(lib):
+    """-> f(c) = set of strings the bracket-class printer renders member `c` as (through its escape closure), or None when the closure / its escape set is not found."""
+    cls = [b for b in lib.bodies if b.kind == "fn" and any("std::collections::BTreeSet<char>" in t for t in b.sig_inputs)]
+    found = []
+    for fb in cls:
+        for clo in [c for c in lib.bodies if c.kind == "closure" and c.parent == fb.path]:
+            if not any((callee_name(t) or "") == "core::slice::<impl [T]>::contains" for _, t in clo.calls()):
+                continue
+            ups = common.upvar_origins(lib, clo)
+            arr = None
+            for u in ups or []:
+                u = local.peel(u)
+                if u[0] == "agg" and u[1] == "array":
+                    arr = [local.const_value(local.peel(x)) for x in u[3]]
+                elif isinstance(local.const_value(u), list):
+                    arr = local.const_value(u)
+            if arr is not None:
+                found.append((clo, arr))
+    if not found:
+        # a named escaper `fn(char) -> String` called by the class printer
+        fns = []
+        for fb in cls:
+            for _, t in fb.calls():
+                cb = lib.body(callee_name(t) or "")
+                if cb is not None and cb.kind == "fn" and cb.sig_inputs in (["char"], ["&char"]) and cb.sig_output == "std::string::String" and cb not in fns:
+                    fns.append(cb)
+        if len(fns) != 1:
+            return None
+        eb = fns[0]
+        by_ref = eb.sig_inputs == ["&char"]
+        m = ccp.Machine([lib])
+
+        def g(c):
+            try:
+                leaves = m.run(eb, [ccp.Ref(ccp.Cell(ccp.CharV(c))) if by_ref else ccp.CharV(c)])
+            except Exception:
+                return None
+            out = set()
+            for l in leaves:
+                if l.kind != "return":
+                    continue
+                v = l.value if isinstance(l.value, ccp.Tmpl) else ccp.to_tmpl(l.value)
+                if isinstance(v, ccp.Tmpl) and v.is_const():
+                    out.add(v.text())
+                elif isinstance(v, ccp.Tmpl) and len(v.parts) == 1 and isinstance(v.parts[0], ccp.Hole) and isinstance(ccp.strip_ref(v.parts[0].v), ccp.CharV):
+                    out.add(ccp.strip_ref(v.parts[0].v).c)
+                else:
+                    return None
+            return out or None
+        g.closure = eb
+        return g
+    if len(found) != 1:
+        return None
+    clo, arr = found[0]
+    env = ccp.Agg("closure", clo.path, None, [ccp.Ref(ccp.Cell(ccp.Agg("array", None, None, [ccp.CharV(c) for c in arr])))])
+    m = ccp.Machine([lib])
+
+    def f(c):
+        try:
+            leaves = m.run(clo, [ccp.Ref(ccp.Cell(env)), ccp.Ref(ccp.Cell(ccp.CharV(c)))])
+        except Exception:
+            return None
+        out = set()
+        for l in leaves:
+            if l.kind != "return":
+                continue
+            v = l.value if isinstance(l.value, ccp.Tmpl) else ccp.to_tmpl(l.value)
+            if isinstance(v, ccp.Tmpl) and v.is_const():
+                out.add(v.text())
+            elif isinstance(v, ccp.Tmpl) and len(v.parts) == 1 and isinstance(v.parts[0], ccp.Hole) and isinstance(ccp.strip_ref(v.parts[0].v), ccp.CharV):
+                out.add(ccp.strip_ref(v.parts[0].v).c)
+            else:
+                return None
+        return out or None
+    f.closure = clo
+    return f
+
+
 def esc3(ctx, lib):
     """ESC-3: escaping reaches every nesting level the printer prints."""
     from sa import callgraph
@@ -411,6 +489,141 @@ def esc3(ctx, lib):
                       "(grex -r '..b..bc..b..bc' -> ^(?:(?:.{2}b){2}c){2}$)", E.loc())
 
 
+def esc4(ctx, lib):
+    """ESC-4: the printer prints a grapheme's own text only where that text was escaped.  The function applying the escaper to a whole grapheme either does so
+    unconditionally, or only when the grapheme has no nested repetitions (the nested ones are escaped instead); in the latter case every use of the own text
+    in the printer must be dominated by the same emptiness test - a second way into that branch (`is_empty() || ..`) prints raw, unescaped text."""
+    G = "grapheme::Grapheme"
+    printer = None
+    for b in lib.bodies:
+        if b.impl_trait == "std::fmt::Display" and b.impl_self == G and b.path.endswith("::fmt"):
+            printer = b
+    entries = find_escape_entry(lib)
+    adt = lib.adts.get(G)
+    if printer is None or len(entries) != 1 or not adt:
+        ctx.anchor_lost("ESC-4", "Grapheme printer / escape entry")
+        return
+    E = entries[0]
+    nested = [f["name"] for f in adt["variants"][0]["fields"] if "Vec<grapheme::Grapheme>" in norm(f["ty"])]
+    if len(nested) != 1:
+        ctx.anchor_lost("ESC-4", "the field of Grapheme holding nested repetitions")
+        return
+    nested = nested[0]
+    # predicates (&Grapheme) -> bool that are the (negated) emptiness test of the nested list
+    helper_truth = {}
+    for hb in lib.bodies:
+        if hb.kind == "assoc_fn" and hb.sig_inputs == ["&" + G] and hb.sig_output == "bool" and not hb.derived:
+            r = local.peel(local.Defs(hb).local(0))
+            neg = False
+            if r[0] == "unop" and r[1] == "Not":
+                neg, r = True, local.peel(r[2])
+            if r[0] == "call" and r[1].endswith("::is_empty") and r[2]:
+                a = local.peel(r[2][0])
+                if a[0] == "field" and a[1] == nested:
+                    helper_truth[hb.path] = not neg      # truth value of the helper when the nested list is empty
+
+    def emptiness(g, subject):
+        """True if this guard edge says 'the nested list of `subject` is empty', False if it says 'not empty', None otherwise"""
+        t = guards.edge_truth(g)
+        if t is None:
+            return None
+        o = local.peel(g["origin"])
+        neg = False
+        if o[0] == "unop" and o[1] == "Not":
+            neg, o = True, local.peel(o[2])
+        if o[0] != "call" or not o[2]:
+            return None
+        a = local.peel(o[2][0])
+        if o[1].endswith("::is_empty") and a[0] == "field" and a[1] == nested and subject(local.peel(a[2])):
+            return t != neg
+        if o[1] in helper_truth and subject(a):
+            return (t != neg) == helper_truth[o[1]]
+        return None
+
+    # (1) the appliers: calls of the escape entry on a whole grapheme outside the entry itself
+    cover = []
+    for cb, bi, t in guards.call_sites(lib, E.path):
+        if cb.path == E.path:
+            continue
+        fi = guards.FnInfo.of(cb)
+        recv = local.peel(fi.defs.operand(t["args"][0]))
+        def from_nested(x):
+            if x[0] == "field" and x[1] == nested:
+                return True
+            xb = lib.body(x[1]) if x[0] == "call" else None
+            return xb is not None and xb.sig_output is not None and "Vec<grapheme::Grapheme>" in xb.sig_output and xb.sig_inputs in (["&mut " + G], ["&" + G])
+        if any(from_nested(x) for x in local.walk(recv)):
+            continue        # an item of the nested repetitions: not the whole grapheme
+        if cb.kind == "closure" and recv[0] == "param":
+            # a closure applied to each item of some list: which list?
+            site = common.closure_site(lib, cb)
+            if site is not None:
+                parent, pdefs, _ = site
+                applied_to_nested = False
+                for bj, t2 in parent.calls():
+                    ops = [pdefs.operand(a) for a in t2["args"]]
+                    if any(local.peel(o2)[0] == "agg" and local.peel(o2)[1] == "closure" and local.peel(o2)[2] == cb.path for o2 in ops[1:]) \
+                            and any(from_nested(x) for x in local.walk(ops[0])):
+                        applied_to_nested = True
+                if applied_to_nested:
+                    continue
+        is_subject = lambda a, recv=recv: a == recv or (a[0] in ("param", "upvar") and recv[0] in ("param", "upvar") and a[:2] == recv[:2])
+        # the conditions this call is nested in: immediate control dependences, followed upwards (transitive dependences through a loop's back edge would
+        # add the guards of *other* iterations)
+        gs, seen_blocks, work = [], set(), [bi]
+        while work:
+            blk = work.pop()
+            if blk in seen_blocks:
+                continue
+            seen_blocks.add(blk)
+            for g in guards.guards(cb, blk, transitive=False):
+                if g["loop"]:
+                    continue
+                if not any(g["block"] == h["block"] and g["succ"] == h["succ"] for h in gs):
+                    gs.append(g)
+                work.append(g["block"])
+        kinds = [(emptiness(g, is_subject), g) for g in gs]
+        if not gs:
+            cover.append(("always", cb, bi, t))
+        elif all(k is True for k, _ in kinds) and all(fi.cfg.edge_dominates(g["block"], g["succ"], bi) for _, g in kinds):
+            cover.append(("when-empty", cb, bi, t))
+        else:
+            cover.append(("other", cb, bi, t))
+    if not cover:
+        # applied to items only (e.g. `for_each(|g| g.escape(..))` over all graphemes)
+        ctx.undecided("ESC-4", E.path, "no application of the escape entry to a whole grapheme was recognised", E.loc())
+        return
+    if any(k == "other" for k, *_ in cover):
+        k, cb, bi, t = [c for c in cover if c[0] == "other"][0]
+        ctx.undecided("ESC-4", cb.path, "the escape entry is applied to a grapheme under a condition that is not the emptiness test of its nested repetitions", cb.loc(t.get("line")))
+        return
+    if all(k == "always" for k, *_ in cover):
+        ctx.ok("ESC-4", "%s:own text always escaped" % E.path, {"appliers": sorted({c[1].path for c in cover})}, E.loc())
+        return
+    # (2) the printer: own text only under the emptiness test
+    n = 0
+    for pb in [printer] + [c for c in lib.bodies if c.kind == "closure" and c.parent == printer.path]:
+        fi = guards.FnInfo.of(pb)
+        for bi, t in pb.calls():
+            cb = lib.body(callee_name(t) or "")
+            if cb is None or cb.derived or cb.sig_inputs != ["&" + G] or cb.sig_output != "std::string::String":
+                continue
+            recv = local.peel(fi.defs.operand(t["args"][0]))
+            if not (recv[0] == "param" and recv[1] == 1 and pb is printer):
+                continue
+            n += 1
+            is_self = lambda a: a[0] == "param" and a[1] == 1
+            dom = [g for g in guards.guards(pb, bi) if emptiness(g, is_self) is True and fi.cfg.edge_dominates(g["block"], g["succ"], bi)]
+            if dom:
+                ctx.ok("ESC-4", "%s:own text under the emptiness test of the nested repetitions" % pb.path, {"accessor": cb.path}, pb.loc(t.get("line")))
+            else:
+                ctx.violation("ESC-4", (pb.path, "own text of a grapheme with nested repetitions"),
+                              "the printer can print a grapheme's own text (%s) although its nested repetitions are not empty, but for such a grapheme only the nested "
+                              "repetitions were escaped (%s): metacharacters of the unit reach the pattern raw (e.g. `(hoho. ){2}` for `hoho. hoho. `)"
+                              % (cb.path.split("::")[-1], ", ".join(sorted({c[1].path for c in cover if c[0] == "when-empty"}))), pb.loc(t.get("line")))
+    ctx.floor("ESC-4", "uses of a grapheme's own text in its printer", n, 1)
+
+
 def class_escape_closures(lib):
     out = set()
     for fb in [b for b in lib.bodies if b.kind == "fn" and any("std::collections::BTreeSet<char>" in t for t in b.sig_inputs)]:
@@ -452,6 +665,7 @@ def run(ctx):
                       "mechanism, except '#' (verbose only, C06) and '&','~' (special only doubled inside classes); inside bracket classes [ ] \\ ^ - are escaped")
     ctx.rule("RAW-1", "in the bracket-class printer no member is formatted as a raw char outside the class escaper (range end points included)")
     ctx.rule("ESC-3", "if the grapheme printer is recursive over nested repetitions, the application of the escaper is recursive as well (call-graph cycle)")
+    ctx.rule("ESC-4", "the printer prints a grapheme's own text only where it was escaped: under the same emptiness test of the nested repetitions that the escaping dispatch uses")
     ctx.rule("ESC-2", "escaping is per occurrence (str::replace / char loop), applied to and stored back for every stored string of a grapheme")
     ctx.assume("minimisation, state elimination and printing preserve membership of the test cases (not decided: see C16)")
     prog = common.view(ctx, "default")
@@ -459,6 +673,24 @@ def run(ctx):
     fin(ctx, lib)
     esc(ctx, prog, lib)
     esc3(ctx, lib)
+    esc4(ctx, lib)
+    # TAB-1/2, CLS-1 (shared with C09/C03): a class token is substituted for a code point only if the engine's class of that name contains it
+    from . import C09 as _c09
+    _c09.run(ctx)
+    # VWS-1/2 (shared with C06): under (?x) every ignored character is rewritten to an escape of exactly itself, in literals and in bracket classes
+    from .C06 import vws
+    ctx.rule("VWS-1", "on every verbose path each character the engine ignores under (?x) (White_Space, '#') is rewritten, in literals and as a bracket-class member")
+    ctx.rule("VWS-2", "each such rewrite denotes exactly the character it replaces")
+    vws(ctx, prog, lib, common.role_fields(ctx, lib, want=common.FMT_ROLES), with_cas=False)
+    # ESCP-2 (b), shared with C11: the literal printer applies the escaper on every path before it prints a grapheme
+    from .C11 import literal_printer_escapes
+    _fee = find_escape_entry
+    ctx.rule("ESCP-2", "every literal is escaped before printing: the literal printer calls the symbol escaper on the grapheme or on each of its repetitions on every path")
+    _hits = _fee(lib)
+    if len(_hits) == 1:
+        literal_printer_escapes(ctx, lib, _hits[0])
+    else:
+        ctx.anchor_lost("ESCP-2", "symbol escaper")
     from . import classprinter
     classprinter.raw1(ctx, lib, class_escape_closures(lib))
     # TRI-1 (shared with C05): a trie edge that earlier test cases traverse is never rewritten.  A widened edge (v,min,max) stands for the counts min..max, but the
